@@ -1,12 +1,17 @@
 (* C04: crash-free, terminating, offset-sane.
    PARTIAL.  Proved: the safety rule for the loop driver (any parser whose iteration keeps its
    invariant never panics, never loops without progress, and returns offsets in range), its
-   instances for Call-ID, unsigned-integer (Expires) and Content-Length values on every buffer,
-   offset and resumed state; totality of the look-ups incl. the empty name; error positions of
-   ParseURI; relocation never corrupts.  Not proved: the instances for the remaining automata
-   (name-addr, token parameter, header line, message), which the correspondence + crash oracle cover.
+   instances - on every buffer, every start offset inside it, every object state satisfying the
+   stated invariant (fresh objects do; every suspended object does again, so every chunk schedule is
+   covered) - for Call-ID, unsigned-integer (Expires), Content-Length, CSeq, the first line, token
+   parameters (every flag set) and SkipQuoted: no panic, no stuck loop, returned offset inside the
+   buffer, every reported field dereferenceable against the buffer; ParseURI never panics on any
+   byte string (and its error positions lie inside the input); totality of the look-ups incl. the
+   empty name; relocation never corrupts.  Not proved: the instances for the name-addr automaton, the
+   header line / block and the message (their invariants need per-state facts about pairs of saved
+   offsets), which the correspondence + crash oracle cover.
    Concurrency: model functions are pure; data races are runtime behaviour outside the model. *)
-From Sipsp Require Import Harness RunLemmas Safe SafeLeaf Classify URIOffsets URIViews.
+From Sipsp Require Import Harness RunLemmas Safe SafeLeaf SafeMore Classify URIOffsets URIViews URILossless.
 Theorem C04_safety_rule : forall (St : Type) (iter : list byte -> list byte -> N -> St -> ires St)
   (P : list byte -> list byte -> N -> St -> Prop) (Q : list byte -> list byte -> N -> N -> err -> St -> Prop),
   (forall pre rest i s, P pre rest i s ->
@@ -46,3 +51,27 @@ Theorem C04_uri_offsets : forall uri u0 e o u, parse_uri uri u0 = Some (e, o, u)
 Proof. exact parse_uri_offsets. Qed.
 Theorem C04_refused_relocation_keeps_structure : forall u np, fst (uri_adjust u np) = false -> snd (uri_adjust u np) = u.
 Proof. exact adjust_refused_unchanged. Qed.
+
+Theorem C04_cseq : forall buf offs s, offs <= nnat (length buf) -> cs_inv offs s ->
+  match parse_cseq buf offs s with
+  | Done o e s' => o <= nnat (length buf) /\ cs_inv (nnat (length buf)) s' /\ (e = EMore -> offs <= o /\ cs_inv o s') /\ (e = EOk -> offs <= o)
+  | _ => False
+  end.
+Proof. exact cseq_safe. Qed.
+Theorem C04_first_line : forall buf offs s, offs <= nnat (length buf) -> fl_inv offs s ->
+  match parse_fline buf offs s with
+  | Done o e s' => o <= nnat (length buf) /\ fl_inv (nnat (length buf)) s' /\ (e = EMore -> offs <= o /\ fl_inv o s') /\ (e = EOk -> offs <= o)
+  | _ => False
+  end.
+Proof. exact fline_safe. Qed.
+Theorem C04_token_param : forall flags buf offs s, offs <= nnat (length buf) -> tp_inv offs s ->
+  match parse_tokparam flags buf offs s with
+  | Done o e s' => o <= nnat (length buf) /\ tp_inv (nnat (length buf)) s' /\ (e = EMore -> offs <= o /\ tp_inv o s')
+  | _ => False
+  end.
+Proof. exact tokparam_safe. Qed.
+Theorem C04_fresh_objects_satisfy_the_invariants : forall o,
+  ci_inv o callid0 /\ ui_inv o uintb0 /\ cs_inv o cseq0 /\ fl_inv o fline0 /\ tp_inv o tokparam0.
+Proof. exact (fun o => conj (callid0_inv o) (conj (uintb0_inv o) (conj (cseq0_inv o) (conj (fline0_inv o) (tokparam0_inv o))))). Qed.
+Theorem C04_parse_uri_never_panics : forall uri, parse_uri uri puri0 <> None.
+Proof. exact parse_uri_total. Qed.
